@@ -3,6 +3,7 @@ package rules
 import (
 	"go/token"
 	"go/types"
+	"strings"
 
 	"golang.org/x/tools/go/ssa"
 	"verif/checker/internal/core"
@@ -621,6 +622,14 @@ func runC06(c *core.Ctx) {
 	importObligations(c, runC02, "R6", func(o *core.Obligation) bool { return o.Rule == "R8" })
 	c.Rule("R5", "every successful enqueue is followed by CAS(running, idle->running) on every path (accepted before Close => owned by a sender)", 1)
 	ruleEnqueueRingsBell(c, e, "R5")
+	// what Close waits for is the queue: the accepted bytes are in it intact (private buffers, not recycled or
+	// rewritten while queued: C10, C17-R7), and nothing accepted bypasses it (C01-R3)
+	c.Rule("R7", "accepted payloads are in the queue Close waits for, intact: private buffers, read-only batches, no write path around the queue (shared with C10-R1/R4/R6, C17-R7, C01-R3)", 3)
+	importObligations(c, runC10, "R7", func(o *core.Obligation) bool { return o.Rule == "R1" || o.Rule == "R4" || o.Rule == "R6" })
+	importObligations(c, runC17, "R7", func(o *core.Obligation) bool { return o.Rule == "R7" })
+	importObligations(c, runC01, "R7", func(o *core.Obligation) bool {
+		return o.Rule == "R3" && (strings.Contains(o.Key, "transport-as-writer") || strings.Contains(o.Key, "enqueuer/"))
+	})
 }
 
 func isIntT(t types.Type) bool {
